@@ -10,6 +10,7 @@ else was requested).
 """
 import io
 import itertools
+from fractions import Fraction
 import json
 import os
 import warnings
@@ -31,7 +32,14 @@ THEOREMS = [
     'AbacusVerif.ReadAsdf.columns_default',
     'AbacusVerif.ReadAsdf.rows_spec',
     'AbacusVerif.ReadAsdf.read_spec',
+    'AbacusVerif.ReadAsdf.values_are_direct_decoding',
+    'AbacusVerif.ReadAsdf.values_independent_of_selection',
+    'AbacusVerif.ReadAsdf.read_values_independent',
+    'AbacusVerif.ReadAsdf.aux_passthrough',
+    'AbacusVerif.ReadAsdf.subsample_rule',
+    'AbacusVerif.ReadAsdf.values_shape',
 ]
+LEAN_MODULES = ['AbacusVerif.Generated.BitConsts', 'AbacusVerif.Props.C16']
 DRIVER = 'drv_c16'
 RULE = ('exhaustive: file type (rvint, pack9, packedpid, pid) x load in {None} + all subsets of the loadable columns '
         '(pos, vel | pid, lagr_pos, tagged, density, lagr_idx, aux; list order shuffled) x load_pos x load_vel in '
@@ -39,8 +47,11 @@ RULE = ('exhaustive: file type (rvint, pack9, packedpid, pid) x load in {None} +
         'names, other header styles, empty files, and an error stream: all 16 presence patterns of the four known raw '
         'keys x colname in {None, each known key, two non-standard names}; distinct = distinct call signatures; '
         'a case is non-trivial when the file has at least one record')
-TRUSTED = ['asdf 5.4 (file round trip of the synthetic files; validate_on_read switched off for speed), astropy Table (add_column(copy=False), slicing, meta)',
-           'column values are compared bit for bit with direct calls of bitpacked.unpack_rvint / unpack_pids and '
+TRUSTED = ['model values (C04/C15 model decoders called by Model/C16Values.lean as read_asdf calls the real ones) against the real '
+           'table: integers, raw words, rvint velocities and densities exactly; rvint positions within 2 ulp; lagr_pos within '
+           '3 ulp of max(j*Box/ppd, Box/2); pack9 values within 6 ulp of the summed-term magnitude (the C04 / C15 bounds)',
+           'asdf 5.4 (file round trip of the synthetic files; validate_on_read switched off for speed), astropy Table (add_column(copy=False), slicing, meta)',
+           'oracle: column values are compared bit for bit with direct calls of bitpacked.unpack_rvint / unpack_pids and '
            'pack9.unpack_pack9 on the same raw arrays; those decoders are tied to Lean models by C04 and C15',
            'harness/partfiles.py writes exactly the arrays the harness keeps in memory (uncompressed ASDF)']
 ASSUMPTIONS = ['the header has BoxSize (and VelZSpace_to_kms for pack9, ppd for PID files, SimSet and ParticleSubsampleA/B '
@@ -55,6 +66,14 @@ KNOWN = ['rvint', 'pack9', 'packedpid', 'pid']
 TRI = {'N': None, 'T': True, 'F': False}
 DT = {'f4': np.float32, 'f8': np.float64}
 FLOATCOLS = ('pos', 'vel', 'lagr_pos', 'density')
+
+
+def extract(ctx):
+    """the value model (Model/C16Values.lean) calls the C04 model decoders, which are stated over the constants
+    regenerated from bitpacked.py: regenerate them here too"""
+    from extract import bitconsts
+    c, changed = bitconsts.regenerate()
+    ctx.extra['generated_file_changed'] = changed
 
 
 # ----------------------------------------------------------------------------- files
@@ -105,7 +124,50 @@ def make_file(ctx, name, header, keys, n, extra=None):
 
 # ----------------------------------------------------------------------------- one call
 
+def frac(x):
+    return Fraction(*float(x).as_integer_ratio())
+
+
+def fs(q):
+    return '%d/%d' % (q.numerator, q.denominator) if q.denominator != 1 else '%d' % q.numerator
+
+
+def value_key(pf_, c):
+    """the raw key when this call can be sent to the value model: the file has exactly one known raw column, the
+    call reads it, and (large files) the call is in the 1-in-7 sample"""
+    known_present = [k for k in KNOWN if k in pf_.cols]
+    if len(known_present) != 1 or c['colname'] not in (None, known_present[0]):
+        return None
+    if not {'BoxSize', 'VelZSpace_to_kms', 'ppd'} <= set(pf_.header):
+        return None
+    if len(pf_.cols[known_present[0]]) > 40 and c.get('seq', 0) % 7 != 0:
+        return None
+    return known_present[0]
+
+
+def raw_text(key, arr):
+    if len(arr) == 0:
+        return '-'
+    if key == 'rvint':
+        return ','.join(str(int(v)) for v in arr.reshape(-1))
+    if key == 'pack9':
+        return arr.tobytes().hex()
+    return ','.join(str(int(v)) for v in arr)
+
+
 def model_line(pf_, c):
+    key = value_key(pf_, c)
+    if key is not None:
+        h = pf_.header
+        dt = DT[c['dtype']]
+        box, velz, ppd = frac(h['BoxSize']), frac(h['VelZSpace_to_kms']), frac(h['ppd'])
+        cbox, cvelz = frac(dt(h['BoxSize'])), frac(dt(h['VelZSpace_to_kms']))
+        load = c['load']
+        ls = '-' if load is None else ('[]' if len(load) == 0 else ','.join(load))
+        return 'readv %s %s %s %s %s %s %d %d %s %s %s %s %s' % (
+            key, fs(box), fs(velz), fs(ppd), fs(cbox), fs(cvelz),
+            1 if h.get('OutputType') == 'LightCone' else 0, 1 if h.get('SimSet') == 'AbacusSummit' else 0,
+            c['colname'] or '-', ls, c['lp'], c['lv'], raw_text(key, pf_.cols[key]))
     pres = ''.join('1' if k in pf_.cols else '0' for k in KNOWN)
     others = [k for k in pf_.cols if k not in KNOWN]
     cn = c['colname']
@@ -132,8 +194,82 @@ def parse_model(s):
     if not s.startswith('ok '):
         return {'err': 'protocol:' + s}
     d = dict(p.split('=', 1) for p in s.split(' ')[1:])
+    if 'rows' not in d:      # value model: cols=<name>=<cell;cell;...>|<name>=...
+        vals = []
+        if d['cols'] != '-':
+            for part in d['cols'].split('|'):
+                name, cells = part.split('=', 1)
+                vals.append((name, [] if cells == '-' else cells.split(';')))
+        lens = {len(v) for _, v in vals}
+        return {'colname': d['colname'], 'cols': [n for n, _ in vals], 'rows': (vals[0] and len(vals[0][1])) if vals else 0,
+                'warn': d['warn'], 'subsample': int(d['subsample']), 'values': vals, 'ragged': len(lens) > 1}
     return {'colname': d['colname'], 'cols': [] if d['cols'] == '-' else d['cols'].split(','), 'rows': int(d['rows']),
             'warn': d['warn'], 'subsample': int(d['subsample'])}
+
+
+def within(got, exact, tol):
+    g = float(got)
+    if np.isnan(g) or np.isinf(g):
+        return False
+    return abs(Fraction(g) - exact) <= Fraction(tol)
+
+
+def cmp_values(pf_, key, c, vals, t):
+    """the model's column values against the real table: integers and raw words exactly; floats within the C04 / C15
+    bounds (rvint pos 2 ulp; rvint vel, density exact; lagr_pos 3 ulp of max(j*box/ppd, box/2); pack9 6 ulp of the
+    summed-term magnitude).  `U` (never written, np.empty) matches anything."""
+    dt = DT[c['dtype']]
+    h = pf_.header
+    box = frac(h['BoxSize'])
+    mags = None
+    if key == 'pack9':
+        from props import c15
+        recs = [list(r) for r in pf_.cols[key].tolist()]
+        orc = c15.oracle_decode(recs, float(dt(h['BoxSize'])), float(dt(h['VelZSpace_to_kms'])))
+        mags = {'pos': [p[2] for p in orc], 'vel': [p[3] for p in orc]}
+    eps = float(np.finfo(dt).eps)
+    n = 0
+    for name, cells in vals:
+        a = np.asarray(t[name])
+        if len(a) != len(cells):
+            return '%s: %d rows, model %d' % (name, len(a), len(cells))
+        for i, cell in enumerate(cells):
+            if cell == 'U':
+                continue
+            n += 1
+            row = a[i]
+            if name == 'aux':
+                if key == 'pack9':
+                    ok = bytes(bytearray(int(b) for b in row)).hex() == cell
+                elif key == 'rvint':
+                    ok = [int(x) for x in row] == [int(x) for x in cell.split(':')]
+                else:
+                    ok = int(row) == int(cell)
+            elif name in ('pid', 'tagged'):
+                ok = int(row) == int(cell)
+            elif name == 'lagr_idx':
+                ok = [int(x) for x in row] == [int(x) for x in cell.split(':')]
+            elif name == 'density':
+                ok = a.dtype == dt and Fraction(float(row)) == Fraction(cell)
+            elif key == 'rvint' and name == 'vel':
+                ok = a.dtype == dt and [Fraction(float(x)) for x in row] == [Fraction(x) for x in cell.split(':')]
+            elif key == 'rvint' and name == 'pos':
+                ex = [Fraction(x) for x in cell.split(':')]
+                ok = a.dtype == dt and all(within(row[k], ex[k], 2 * float(np.spacing(dt(abs(float(ex[k])))))) for k in range(3))
+            elif name == 'lagr_pos':
+                ex = [Fraction(x) for x in cell.split(':')]
+                ok = a.dtype == dt and all(
+                    within(row[k], ex[k], 3 * float(np.spacing(dt(float(max(abs(ex[k] + box / 2), box / 2)))))) for k in range(3))
+            elif key == 'pack9' and name in ('pos', 'vel'):
+                ex = [None if x == 'nan' else Fraction(x) for x in cell.split(':')]
+                mg = mags[name][i]
+                ok = a.dtype == dt and all(
+                    (np.isnan(row[k]) if ex[k] is None else within(row[k], ex[k], 6 * eps * float(mg[k]))) for k in range(3))
+            else:
+                return 'unexpected column %s' % name
+            if not ok:
+                return '%s[%d] = %s, model %s' % (name, i, np.asarray(row).tolist(), cell)
+    return n
 
 
 def call_impl(pf_, c):
@@ -199,6 +335,14 @@ def check_call(ctx, pf_, c, mres):
         mod = {k: m[k] for k in ('cols', 'rows', 'warn', 'subsample')}
         if obs != mod:
             ctx.disagree('read_asdf columns/rows/warning/meta', dict(file=pf_.tag, **c), mod, obs)
+        elif 'values' in m:
+            res = 'model columns have different lengths' if m['ragged'] else cmp_values(pf_, value_key(pf_, c), c, m['values'], t)
+            if isinstance(res, str):
+                ctx.disagree('read_asdf column values (model decoders of C04/C15 on the raw column)',
+                             dict(file=pf_.tag, **c), res, 'see case')
+            else:
+                ctx.count('calls-with-values-compared')
+                ctx.count('cells-compared', res)
     ctx.count('outcome:' + (r['err'] if 'err' in r else 'ok'))
     # ------------------------------------------------------------------ oracle: the property itself
     case = dict(file=pf_.tag, keys=sorted(pf_.cols), **c)
@@ -315,6 +459,9 @@ def build_files(ctx):
         xfiles.append(make_file(ctx, '%s_lc_other' % ftype, pf.lightcone_header(box=123.5, ppd=17.0, simset='Other'), [ftype], 9))
         xfiles.append(make_file(ctx, '%s_empty' % ftype, pf.snapshot_header(), [ftype], 0))
         xfiles.append(make_file(ctx, '%s_one' % ftype, pf.snapshot_header(box=1000.1), [ftype], 1))
+    # ppd that is not an integer: int(round(63.5)) = 64 (half to even), truncation would give 63
+    xfiles.append(make_file(ctx, 'pid_halfppd', pf.snapshot_header(box=640.0, ppd=63.5), ['pid'], 7))
+    xfiles.append(make_file(ctx, 'packedpid_ppd_up', pf.lightcone_header(box=100.0, ppd=16.75), ['packedpid'], 7))
     bare = pf.bare_header()
     xfiles.append(make_file(ctx, 'rvint_bare', bare, ['rvint'], 5))
     for r in range(5):
@@ -326,6 +473,8 @@ def build_files(ctx):
 
 
 def run_cases(ctx, cases):
+    for i, (p, c) in enumerate(cases):
+        c.setdefault('seq', i)
     outs = ctx.driver.query([model_line(p, c) for p, c in cases])
     for (p, c), mres in zip(cases, outs):
         check_call(ctx, p, c, mres)
